@@ -199,7 +199,15 @@ class OffGrid(Exception):
 
 
 def to_grid(v, s):
-    """float output -> integer on the 2^-s grid; anything else is an off-grid result"""
+    """float output -> integer on the 2^-s grid; anything else is an off-grid result.
+    s < 0 denotes the decimal grid 10^s, whose points are not binary64 numbers: outputs are accepted within 1e-6
+    of a grid point (the implementation itself rounds aggregated ranges to 8 decimals)."""
+    if s < 0:
+        x = float(v) * 10 ** (-s)
+        r = round(x)
+        if x != x or abs(x - r) > 1e-6:
+            raise OffGrid(repr(v))
+        return int(r)
     x = float(v) * (1 << s)
     if x != x or abs(x) > 2 ** 52 or x != int(x):
         raise OffGrid(repr(v))
@@ -272,6 +280,13 @@ def gen_history(rng, maxlen=40, closed=None):
             m = min(h)
             h = [m] + h + [m]
     s = rng.choice([0, 0, 0, 1, 2, 3, 8])
+    if rng.random() < 0.12 and max(abs(v) for v in h) < 4096:
+        # near ties: the same shape blown up by 2^20 with points moved by one or two grid steps, so that ranges
+        # which tie exactly in the small history differ by ~1e-6 relative (a tolerance such as np.isclose in a
+        # comparison of the implementation changes the answer, exact arithmetic does not); still exact in binary64
+        h = [v * (1 << 20) + rng.choice([0, 0, 0, 1, -1, 2]) for v in h]
+        if closed and len(h) >= 2 and rng.random() < 0.7:
+            h[-1] = h[0]
     return h, s
 
 
